@@ -514,6 +514,21 @@ Fixpoint run_session (fuel : nat) (w : world) (ops : list sop) : list sres * wor
     end
   end.
 
+(* a session during which resources change from outside (the history steps above put external changes BETWEEN sessions, which
+   is the contract of a session; this variant only serves the correspondence runs that explore what the implementation does when
+   the contract is broken: the edit changes the content and nothing else -- the session's consistent set, queue and trace stay) *)
+Inductive mop := MSop (o : sop) | MEdit (r : res) (v : content).
+Fixpoint run_msession (fuel : nat) (w : world) (ops : list mop) : list sres * world :=
+  match ops with
+  | [] => ([], w)
+  | MEdit r v :: tl => run_msession fuel (set_content w r v) tl
+  | MSop o :: tl =>
+    match run_sop fuel w o with
+    | (RDone x, w') => let '(rs, w'') := run_msession fuel w' tl in (RDone x :: rs, w'')
+    | (r, w') => ([r], w')
+    end
+  end.
+
 Definition run_step (fuel : nat) (w : world) (s : step) : list sres * world :=
   match s with
   | HEdit r v => ([], set_content w r v)
